@@ -44,6 +44,7 @@ SYMBOLS = {
     "K": (3.0, 24.0, 0.0, 4.0),  # cool night below most base temperatures, warm day (the degree-day methods differ here)
     "F": (-12.0, -2.0, 0.0, 0.5),  # frost: maximum temperature below every crop's base temperature
     "Q": (2.0, 17.0, 0.0, 2.0),    # chilly: a few tenths to 2 degree days for most crops (between 0 and a raised GDD_lo)
+    "G": (10.0, 22.0, 4.0, 3.0),    # exactly 16 degree days a day for Tbase 0 / Tupp >= 22 (sums that land exactly on a thermal threshold)
 }
 WORDS = {
     "normal": "NNNRNNN",
@@ -53,7 +54,7 @@ WORDS = {
     "warm": "WWWWWR",
     "showers": "NRNMNRN",
     "hot": "WWHWWDR",
-    "coolnights": "WKWWKRWKH", "scorch": "TTTWTTR", "chilly": "NQNNQQNRQ",
+    "coolnights": "WKWWKRWKH", "scorch": "TTTWTTR", "chilly": "NQNNQQNRQ", "steady16": "G",
 }
 
 
@@ -216,6 +217,16 @@ def make_iwc(ws):
 
     if ws is None:
         return InitialWaterContent()
+    if ws.get("as_array"):
+        # the same request with its lists given as numpy arrays (float64 for numbers): a valid way to pass them
+        val = ws.get("value", ["FC"])
+        val = np.array(val, dtype=float) if all(isinstance(v, (int, float)) for v in val) else np.array(val)
+        return InitialWaterContent(wc_type=ws.get("wc_type", "Prop"), method=ws.get("method", "Layer"),
+                                   depth_layer=np.array(ws.get("depth_layer", [1]), dtype=float if ws.get("method") == "Depth" else int), value=val)
+    if ws.get("defaults_for_missing"):
+        # only the arguments the user wrote: everything else is left to the constructor's own (shared) default values
+        kw = {k: (list(ws[k]) if isinstance(ws[k], list) else ws[k]) for k in ("wc_type", "method", "depth_layer", "value") if k in ws}
+        return InitialWaterContent(**kw)
     return InitialWaterContent(
         wc_type=ws.get("wc_type", "Prop"),
         method=ws.get("method", "Layer"),
@@ -279,6 +290,8 @@ def make_co2(cs):
         kw["constant_conc"] = bool(cs["constant_conc"])
     if "current_concentration" in cs:
         kw["current_concentration"] = float(cs["current_concentration"])
+    if "ref_concentration" in cs:
+        kw["ref_concentration"] = float(cs["ref_concentration"])
     if cs.get("table") is not None:
         kw["co2_data"] = pd.DataFrame({"year": [y for y, _ in cs["table"]], "ppm": [float(p) for _, p in cs["table"]]})
     return CO2(**kw)
